@@ -1,6 +1,6 @@
 (* C17 - Every rejection is explained by well-formed, correctly located errors. *)
-From Coq Require Import List ZArith Bool.
-From Verif Require Import Base.Sx Base.GoVal Schema.Ast Schema.Pipeline Schema.PipelineFacts Schema.PipelineNames.
+From Coq Require Import List ZArith Bool Lia.
+From Verif Require Import Base.Sx Base.GoVal Schema.Ast Schema.Build Schema.Pipeline Schema.PipelineFacts Schema.PipelineTerm Schema.PipelineNames Schema.PipelineLocate Schema.PipelineLocateDec.
 Import ListNotations.
 Open Scope Z_scope.
 
@@ -46,3 +46,62 @@ Proof.
   pose proof (names_extend_the_path OR N opt defs H1 H2 fuel s p p d (extends_refl p)) as H. rewrite Hr in H. exact (H e He).
 Qed.
 Print Assumptions C17_names_extend_the_path.
+
+(* ... and it designates the place: the name of every error is empty, or the validator's path is empty (names are then relative
+   to the caller), or it is the validator's path followed by a walk into the value - member names of objects that have that
+   member (or the name of a member that is missing, as "required" reports), indices that exist in the array.  For every schema
+   of a set W closed under sub-schemas and reference targets in which no schema uses the single-schema form of items nor a
+   schema dependency (the two keywords that build their sub-validator on the parent's path: slice_validator.go:96-103,
+   schema_props.go:309; the property's text excludes them), for every value, oracle, numeric implementation, environment and
+   fuel, with the two Swagger pre-checks off. *)
+Theorem C17_errors_designate_their_place : forall OR N opt defs,
+  opt_array_must_have_items opt = false -> opt_obj_array_type_check opt = false ->
+  forall W : schema -> Prop,
+  (forall s, W s -> kids W s) ->
+  (forall s n t, W s -> s_ref s = Some n -> lookup_def defs n = Some t -> W t) ->
+  (forall s, W s -> s_ref s = None -> located_local s) ->
+  forall fuel s p d r, W s -> sv_validate OR N opt defs fuel s p p d = Ok r ->
+  forall e, In e (r_errs r) ->
+  m_name e = [] \/ path_is_empty p = true \/ exists t, m_name e = p ++ t /\ walks d t.
+Proof.
+  intros OR N opt defs H1 H2 W Hk Hr Hl fuel s p d r Ws Hv e He.
+  pose proof (errors_designate_their_place OR N opt defs H1 H2 W Hk Hr Hl fuel s p d Ws) as H. rewrite Hv in H. exact (H e He).
+Qed.
+Print Assumptions C17_errors_designate_their_place.
+
+(* the class is decidable (every schema below the root and the definitions is inspected); evaluated on every case of the run *)
+Theorem C17_decided_errors_designate_their_place : forall OR N opt defs,
+  opt_array_must_have_items opt = false -> opt_obj_array_type_check opt = false ->
+  forall n root, located_class_b defs n root = true ->
+  forall fuel p d r, sv_validate OR N opt defs fuel root p p d = Ok r ->
+  forall e, In e (r_errs r) ->
+  m_name e = [] \/ path_is_empty p = true \/ exists t, m_name e = p ++ t /\ walks d t.
+Proof.
+  intros OR N opt defs H1 H2 n root Hc fuel p d r Hv e He.
+  pose proof (decided_errors_designate_their_place OR N opt defs H1 H2 n root Hc fuel p d) as H. rewrite Hv in H. exact (H e He).
+Qed.
+Print Assumptions C17_decided_errors_designate_their_place.
+
+Definition no_oracles17 : oracles :=
+  {| o_rune_len := fun _ => 0; o_re_ok := fun _ => true; o_re_match := fun _ _ => false; o_fmt_known := fun _ => false; o_fmt_check := fun _ _ => true |}.
+Definition opt0 : options :=
+  {| opt_obj_array_type_check := false; opt_array_must_have_items := false; opt_skip_schemata := false; opt_tails := fun k => (k, -1) |}.
+Definition z_ops17 : numops :=
+  {| n_le := Z.leb; n_lt := Z.ltb; n_eq := Z.eqb; n_is_int := fun _ => true;
+     n_mult_of := fun a f => if f <=? 0 then MNotPositive else if Z.eqb (a mod f) 0 then MOk else MNotMultiple;
+     n_of_int := fun z => z; n_to_int64 := fun z => z; n_to_uint64 := fun z => z; n_exact_int := fun z => Some z; n_fits_f32 := fun _ => true |}.
+(* non-vacuity: {"properties":{"a":{"items":[{"type":"string"}],"additionalItems":{"required":[50]}}}} names "root.a.1.50"
+   for {"a":["x", {}]}: a walk into the value through a member, an element and a missing required member *)
+Definition c17_schema : schema :=
+  set_props [(40, set_items_tuple (Some [set_types [k_string] empty_schema])
+                    (set_items_present true (set_add_items (Some (true, Some (set_required [50] empty_schema))) empty_schema)))] empty_schema.
+Definition c17_data : goval := VObj 1 [(40, VArr 2 [VStr 9; VObj 3 []])].
+Example C17_located_somewhere :
+  located_class_b [] 6 c17_schema = true /\
+  exists r, sv_validate no_oracles17 z_ops17 opt0 [] 8 c17_schema [SRoot 7] [SRoot 7] c17_data = Ok r /\
+            map m_name (r_errs r) = [[SRoot 7; SDot 40; SIdx 1; SDot 50]] /\
+            walks c17_data [SDot 40; SIdx 1; SDot 50].
+Proof.
+  split; [vm_compute; reflexivity|]. eexists. split; [vm_compute; reflexivity|]. split; [reflexivity|].
+  cbn. right. eexists. split; [left; reflexivity|]. split; [lia|]. left. reflexivity.
+Qed.
